@@ -1254,6 +1254,16 @@ MUTANTS = [
     dict(id="C09.g-fetch-entry-drops-the-member-that-trips-the-threshold", prop="C09", file=ST + "key_of_set_map/cache.rs",
          old="            new_set.insert_element(element);\n            count += 1;\n", new="            count += 1;\n            if count <= 1024 {\n                new_set.insert_element(element);\n            }\n",
          expect="C09.g/fetch_entry/overlays-added-and-removed"),
+    dict(id="C01.s-D8-observations-not-stored-with-the-rebuilt-set", prop="C01", file=CG + "database.rs",
+         old="""            self.engine()
+                .computation_graph
+                .database
+                .forward_edge_observation
+                .insert(*self.query_id(), new_observations, &mut tx)
+                .await;
+        }""", new="""            let _ = new_observations;
+        }""",
+         expect="C01.s/clean_query/firewall-set-and-observations-replaced-together"),
     # ------------------------------------------------------------------ C09.f (D5)
     dict(id="C09.f-D5-fold-heap-in-arbitrary-order", prop="C09", file=ST + "key_of_set_map/cache.rs",
          old="""        let mut ordered = log.iter().collect::<Vec<_>>();
